@@ -643,9 +643,7 @@ def __parse_header(
                     ),
                     reapplier=None,
                 )
-                num = arg_tokens[1].string
-                if is_number(num):
-                    header.number_macros[key] = num
+                header.number_macros[key] = str(start)
                 start += 1
 
         # #override
